@@ -220,6 +220,12 @@ class Run:
             cmd.append("-race")
             env["CGO_ENABLED"] = "1"
         out = self.scratch / ("vh-" + key)
+        if str(REPO) != "/repo":
+            # checks run against another tree (seeded changes in a scratch worktree): same harness, other replace target
+            mf = self.scratch / "harness.mod"
+            mf.write_text((HARNESS / "go.mod").read_text().replace("=> /repo", "=> %s" % REPO))
+            shutil.copyfile(REPO / "go.sum", self.scratch / "harness.sum")
+            cmd += ["-modfile", str(mf)]
         with Lock("harness"):
             if not (HARNESS / "go.sum").exists() or (HARNESS / "go.sum").read_bytes() != (REPO / "go.sum").read_bytes():
                 shutil.copyfile(REPO / "go.sum", HARNESS / "go.sum")
